@@ -179,6 +179,28 @@ PROPS["C09"] = dict(
                "Grammar.tla: a sentence must evaluate as Expr.tla says, a non-sentence must be rejected (error or the documented panic), and "
                "nothing may crash, hang or succeed silently.",
 )
+PROPS["C16"] = dict(
+    title="DynamoDB usage restrictions are detected",
+    quick=[L("M_RES"), L("M_PH"), G("M_KC")],
+    thorough=[L("M_RES", cfg="M_RES_t"), L("M_PH"), G("M_KC")],
+    own=[labparts("Reserved", "Placeholders", "Outcome", "Accepted", "NoCrash"), parts("Outcome", "NoCrash")],
+    design_ref="DESIGN.md 6 C16",
+    level_text="All 573 reserved words (frozen list), in upper and lower case, in 4 (thorough: 12) bare-name positions of conditions and updates; "
+               "every subset of placeholder families whose spellings are prefixes of one another against what the expression uses; 10 valid and "
+               "17 invalid key-condition shapes on base table and index; BatchWriteItem of 0..27 requests and neither/both requests. TLC decides "
+               "from the bytes / the request which must be rejected and which must not, and judges the answers of interpreter and both clients.",
+)
+PROPS["C13"] = dict(
+    title="primary keys identify items faithfully and are enforced",
+    quick=[G("M_KEYS", cfg="M_KEYS_S"), G("M_KEYS", cfg="M_KEYS_B")],
+    thorough=[G("M_KEYS", cfg="M_KEYS_S_t"), G("M_KEYS", cfg="M_KEYS_B_t")],
+    own=[parts("Outcome", "ErrClass", "Data", "Base", "Desc", "NoCrash")],
+    design_ref="DESIGN.md 6 C13",
+    level_text="Hash+range keys (string and binary) over byte alphabets built to collide under separator-joined encodings, stored at most 2 "
+               "(thorough: 3) at a time, every key written with an attribute naming it; Put / Get / Update / Delete(ALL_OLD) / Scan in every "
+               "reachable state plus malformed keys on all four operations and updates naming a key attribute; TLC judges identity (the "
+               "specification keys items by their key VALUES), rejection of malformed keys and key immutability from answers and full post-states.",
+)
 
 # properties deliberately not claimed, with the reason (none so far: unbuilt ones get a work-in-progress reason)
 NOT_CLAIMED = {}
